@@ -35,7 +35,7 @@ namespace OpenMEEG::MeshIOs {
 
             unsigned arg_size;
             fs.read(reinterpret_cast<char*>(&arg_size),sizeof(unsigned)); // Should be 4
-            fs.read(reinterpret_cast<char*>(&arg_size),arg_size); // Should be characters VOID.
+            fs.ignore(arg_size); // Should be characters VOID.
 
             unsigned vertex_per_face;
             fs.read(reinterpret_cast<char*>(&vertex_per_face),sizeof(unsigned));
@@ -43,6 +43,8 @@ namespace OpenMEEG::MeshIOs {
             unsigned mesh_time;
             fs.read(reinterpret_cast<char*>(&mesh_time),sizeof(unsigned));
             fs.ignore(sizeof(unsigned)); // mesh_step
+            if (fs.fail())
+                throw OpenMEEG::WrongFileFormat(fname);
 
             // Support only for triangulations and one time frame.
 
@@ -54,9 +56,12 @@ namespace OpenMEEG::MeshIOs {
 
             unsigned npts;
             fs.read(reinterpret_cast<char*>(&npts),sizeof(unsigned));
+            const size_t ncoords = 3*static_cast<size_t>(npts);
+            if (fs.fail() || !available(ncoords*sizeof(float)))
+                throw OpenMEEG::WrongFileFormat(fname);
 
-            float* coords = new float[3*npts]; // Point coordinates
-            fs.read(reinterpret_cast<char*>(coords),3*npts*sizeof(float));
+            float* coords = new float[ncoords]; // Point coordinates
+            fs.read(reinterpret_cast<char*>(coords),ncoords*sizeof(float));
             Vertices vertices;
             for (unsigned i=0,j=0; i<npts; ++i,j+=3)
                 vertices.push_back(Vertex(coords[j],coords[j+1],coords[j+2]));
@@ -64,7 +69,7 @@ namespace OpenMEEG::MeshIOs {
             delete[] coords;
 
             fs.read(reinterpret_cast<char*>(&npts),sizeof(unsigned)); // Number of normals
-            fs.ignore(3*npts*sizeof(float)); // Ignore normals.
+            fs.ignore(3*static_cast<std::streamsize>(npts)*sizeof(float)); // Ignore normals.
             fs.ignore(sizeof(unsigned));
         }
 
@@ -73,9 +78,12 @@ namespace OpenMEEG::MeshIOs {
 
             unsigned ntrgs; // Number of faces
             fs.read(reinterpret_cast<char*>(&ntrgs),sizeof(unsigned));
+            const size_t ninds = 3*static_cast<size_t>(ntrgs);
+            if (fs.fail() || !available(ninds*sizeof(unsigned)))
+                throw OpenMEEG::WrongFileFormat(fname);
 
-            unsigned* pts_inds = new unsigned[3*ntrgs]; // Faces
-            fs.read(reinterpret_cast<char*>(pts_inds),3*ntrgs*sizeof(unsigned));
+            unsigned* pts_inds = new unsigned[ninds]; // Faces
+            fs.read(reinterpret_cast<char*>(pts_inds),ninds*sizeof(unsigned));
             mesh.triangles().reserve(ntrgs);
             for (unsigned i=0,j=0; i<ntrgs; ++i,j+=3) {
                 const TriangleIndices t = { pts_inds[j], pts_inds[j+1], pts_inds[j+2] };
@@ -158,6 +166,16 @@ namespace OpenMEEG::MeshIOs {
     private:
 
         bool binary() const override { return true; }
+
+        //  Are there at least nbytes left in the file ? (counts come from the file: check before allocating).
+
+        bool available(const size_t nbytes) {
+            const std::streamoff pos = fs.tellg();
+            fs.seekg(0,std::ios_base::end);
+            const std::streamoff end = fs.tellg();
+            fs.seekg(pos);
+            return pos>=0 && end>=pos && static_cast<size_t>(end-pos)>=nbytes;
+        }
 
         Mesh(const std::string& filename=""): base(filename,"mesh") { }
 
